@@ -439,6 +439,11 @@ type cfgT struct {
 	mult       float64
 	buffered   bool
 	stallAt    int // >=0: the handler blocks at its stallAt-th callback until env.release is closed
+	// straggler class: a small close timeout, auto-linktest, and a data handler whose FIRST call
+	// blocks inline on the recv goroutine until env.dataRelease is closed
+	closeTimeout time.Duration // 0: 3 s
+	linktest     time.Duration // 0: disabled
+	blockData    bool
 }
 
 type dialFn func(attempt int, ctx context.Context) (net.Conn, error)
@@ -451,21 +456,24 @@ type dialed struct {
 }
 
 type env struct {
-	r        *rec
-	conn     hsms.Connection
-	cfg      cfgT
-	sid      uint16
-	wg       sync.WaitGroup // every rig goroutine of this scenario
-	dialCh   chan dialed    // active: peer ends of the pipes the library dialed
-	lisCh    chan *pipeListener
-	dialMu   sync.Mutex
-	dial     dialFn
-	nDial    int
-	inH      atomic.Int32
-	nCb      atomic.Int32
-	release  chan struct{}
-	hung     bool
-	allConns struct {
+	r           *rec
+	conn        hsms.Connection
+	cfg         cfgT
+	sid         uint16
+	wg          sync.WaitGroup // every rig goroutine of this scenario
+	dialCh      chan dialed    // active: peer ends of the pipes the library dialed
+	lisCh       chan *pipeListener
+	dialMu      sync.Mutex
+	dial        dialFn
+	nDial       int
+	inH         atomic.Int32
+	nCb         atomic.Int32
+	release     chan struct{}
+	dataRelease chan struct{}
+	dataEntered chan struct{}
+	nDials      atomic.Int32
+	hung        bool
+	allConns    struct {
 		sync.Mutex
 		cs []io.Closer
 	}
@@ -503,14 +511,22 @@ func (e *env) dialOK() (net.Conn, error) {
 
 func newEnv(cfg cfgT) (*env, error) {
 	e := &env{r: newRec(), cfg: cfg, sid: 1, dialCh: make(chan dialed, 256), lisCh: make(chan *pipeListener, 256),
-		release: make(chan struct{})}
+		release: make(chan struct{}), dataRelease: make(chan struct{}), dataEntered: make(chan struct{}, 16)}
 	lg := capLogger{e.r}
 	copts := []hsms.ConnOption{
 		hsms.WithT3(time.Second), hsms.WithT5(cfg.t5), hsms.WithT6(cfg.t6), hsms.WithT7(cfg.t7), hsms.WithT8(time.Second),
-		hsms.WithReconnectBackoff(cfg.backoff, cfg.mult), hsms.WithCloseTimeout(3 * time.Second),
-		hsms.WithLinktestInterval(0), hsms.WithLogger(lg),
+		hsms.WithReconnectBackoff(cfg.backoff, cfg.mult), hsms.WithLogger(lg),
+	}
+	ct := cfg.closeTimeout
+	if ct == 0 {
+		ct = 3 * time.Second
+	}
+	copts = append(copts, hsms.WithCloseTimeout(ct), hsms.WithLinktestInterval(cfg.linktest))
+	if cfg.linktest > 0 {
+		copts = append(copts, hsms.WithLinktestFailThreshold(1), hsms.WithLinktestSuppression(false))
 	}
 	dial := func(ctx context.Context, _, _ string) (net.Conn, error) {
+		e.nDials.Add(1)
 		e.dialMu.Lock()
 		n := e.nDial
 		e.nDial++
@@ -570,6 +586,15 @@ func newEnv(cfg cfgT) (*env, error) {
 		e.conn = conn
 	default:
 		return nil, errors.New("rig: unknown transport")
+	}
+	if cfg.blockData {
+		var first atomic.Bool
+		e.conn.AddDataMessageHandler(func(*hsms.DataMessage, hsms.SECS2Endpoint) {
+			if first.CompareAndSwap(false, true) {
+				e.dataEntered <- struct{}{}
+				<-e.dataRelease // inline on the recv goroutine of this generation: it is wedged
+			}
+		})
 	}
 	e.conn.AddConnStateChangeHandler(func(prev, next hsms.ConnState) {
 		if e.inH.Add(1) > 1 {
@@ -760,6 +785,11 @@ func (e *env) finish() {
 	case <-e.release:
 	default:
 		close(e.release)
+	}
+	select {
+	case <-e.dataRelease:
+	default:
+		close(e.dataRelease)
 	}
 	if !e.hung {
 		e.closeConn()
